@@ -700,6 +700,8 @@ package redis
 //@   requires @pending-calls-wellformed forall k string :: smhas[u.createClientCalls][k] ==> typeis(smval[u.createClientCalls][k], "*createClientCall") && ifaceptr(smval[u.createClientCalls][k], "*createClientCall") != nil && ifaceptr(smval[u.createClientCalls][k], "*createClientCall").done != nil
 //@   modifies all, smhas, smval
 //@   ensures @client-or-error result1 == nil ==> result0 != nil
+//@   ensures @argument-arrays-keep-their-length forall x *simpleRequest :: x != nil && x.body != nil ==> x.body == old(x.body) && len(x.body.Array) == old(len(x.body.Array))
+//@   assume @ret forall x *simpleRequest :: x != nil && x.body != nil ==> x.body == old(x.body) && len(x.body.Array) == old(len(x.body.Array))
 //@   ensures @pending-calls-wellformed forall k string :: smhas[u.createClientCalls][k] ==> typeis(smval[u.createClientCalls][k], "*createClientCall") && ifaceptr(smval[u.createClientCalls][k], "*createClientCall") != nil && ifaceptr(smval[u.createClientCalls][k], "*createClientCall").done != nil
 //@   ensures @no-finished-connect-attempt-stays-cached !old(smhas[u.createClientCalls][addr]) ==> !smhas[u.createClientCalls][addr]
 //@   assume @ret result1 == nil ==> result0 != nil
